@@ -68,6 +68,55 @@ pub open spec fn te_double(p: P4) -> P4 {
     let h = fsub(d, b);
     P4 { x: fmul(e, f), y: fmul(g, h), t: fmul(e, h), z: fmul(f, g) }
 }
+// the extended coordinate T is consistent with the other three: X Y == Z T.  A result that only LOOKS right after
+// normalisation (which recomputes T) but carries a stale T poisons every later addition and the encoder.
+pub open spec fn t_ok(p: P4) -> bool { fmul(p.x, p.y) == fmul(p.z, p.t) }
+pub proof fn lemma_prod4(e: int, f: int, g: int, h: int)
+    ensures fmul(fmul(e, f), fmul(g, h)) == fmul(fmul(f, g), fmul(e, h))
+{
+    let p = fq_p();
+    vstd::arithmetic::div_mod::lemma_mul_mod_noop_general(e * f, g * h, p);
+    vstd::arithmetic::div_mod::lemma_mul_mod_noop_general(f * g, e * h, p);
+    assert((e * f) * (g * h) == (f * g) * (e * h)) by(nonlinear_arith);
+}
+// the unified addition always produces a consistent T: X3 Y3 = (E F)(G H) = (F G)(E H) = Z3 T3
+pub broadcast proof fn lemma_t_ok_add(p: P4, q: P4) ensures t_ok(#[trigger] te_add(p, q))
+{
+    let a = fmul(p.x, q.x);
+    let b = fmul(p.y, q.y);
+    let c = fmul(fmul(D_(), p.t), q.t);
+    let d = fmul(p.z, q.z);
+    let h = fsub(b, fmul(A_(), a));
+    let e = fsub(fsub(fmul(fadd(p.x, p.y), fadd(q.x, q.y)), a), b);
+    let f = fsub(d, c);
+    let g = fadd(d, c);
+    lemma_prod4(e, f, g, h);
+}
+pub broadcast proof fn lemma_t_ok_neg(p: P4) requires t_ok(p) ensures t_ok(#[trigger] te_neg(p))
+{
+    let q = fq_p();
+    // (-x) y == -(x y) == -(z t) == z (-t)   (all modulo q)
+    vstd::arithmetic::div_mod::lemma_mul_mod_noop_general(-p.x, p.y, q);
+    vstd::arithmetic::div_mod::lemma_mul_mod_noop_general(p.z, -p.t, q);
+    assert((-p.x) * p.y == -(p.x * p.y)) by(nonlinear_arith);
+    assert(p.z * (-p.t) == -(p.z * p.t)) by(nonlinear_arith);
+    // x y ≡ z t  ==>  -(x y) ≡ -(z t)
+    vstd::arithmetic::div_mod::lemma_fundamental_div_mod(p.x * p.y, q); vstd::arithmetic::div_mod::lemma_fundamental_div_mod(p.z * p.t, q);
+    let k1 = (p.x * p.y) / q; let k2 = (p.z * p.t) / q; let r_ = (p.x * p.y) % q;
+    assert(-(p.x * p.y) == q * (-k1) + (-r_)) by(nonlinear_arith) requires p.x * p.y == q * k1 + r_;
+    assert(-(p.z * p.t) == q * (-k2) + (-r_)) by(nonlinear_arith) requires p.z * p.t == q * k2 + r_;
+    vstd::arithmetic::div_mod::lemma_mod_multiples_vanish(-k1, -r_, q);
+    vstd::arithmetic::div_mod::lemma_mod_multiples_vanish(-k2, -r_, q);
+}
+// an affine view (z = 1, t = x y) is consistent by construction
+pub broadcast proof fn lemma_t_ok_aff(x: int, y: int)
+    ensures #[trigger] t_ok(P4 { x: x, y: y, z: 1, t: fmul(x, y) })
+{
+    let q = fq_p();
+    vstd::arithmetic::div_mod::lemma_mod_bound(x * y, q);
+    vstd::arithmetic::div_mod::lemma_small_mod(fmul(x, y) as nat, q as nat);
+    assert(1 * fmul(x, y) == fmul(x, y));
+}
 // projective equality and decaf equality (Decaf paper section 4.5)
 pub open spec fn proj_eq(p: P4, q: P4) -> bool {
     fmul(p.x, q.z) == fmul(q.x, p.z) && fmul(p.y, q.z) == fmul(q.y, p.z)
